@@ -22,12 +22,16 @@ from .. import tlc
 from ..core import pool_map
 
 MODULE = "mimo/Mimo.tla"
-INVARIANTS = ["RoundTrip", "FilterFresh", "MmseBound", "ScalesCancel", "EnergyPreserved", "ChannelUses", "AlamoutiOrthogonal", "ZfDefining",
+INVARIANTS = ["RoundTrip", "FilterFresh", "MmseBound", "ScaleLaw", "ScalesCancel", "EnergyPreserved", "ChannelUses", "AlamoutiOrthogonal", "ZfDefining",
               "MmseDefining", "MmseTendsToZf", "MrtCophased", "SinrFirstPrinciples", "ZfSinrClosedForm",
               "BadLengthRaises"]
 ACTIONS = ["SetChannel", "Encode", "Transmit", "SetNoiseVar", "Decode", "Query", "Rejected", "Filters", "EncodeBadLength"]
 PROPERTIES = ["QueryIsPure", "RejectedChangesNothing"]       # frame conditions (action properties)
-DEVS = ["SvdNeedsSquare", "SinrCoherentInterference", "NvNoneKeepsFilter", "QuerySetsNoiseVar", "RejectedKeepsEffect"]
+DEVS = ["SvdNeedsSquare", "SinrCoherentInterference", "NvNoneKeepsFilter", "QuerySetsNoiseVar", "RejectedKeepsEffect",
+        "GmdAbsoluteTol", "GmdTieBreaks"]
+# channel k is handed to the implementation as 10^SCALES[k % 8] * H (gain sweep 1e-7 .. 1e7, half of the channels at unit gain)
+SCALES = [0, -7, 0, 7, 0, -4, 0, 3]
+ISO_EVERY = 5          # every 5th channel of blast / svd / gmd is a scaled isometry (all singular values equal)
 QUERY_Q = 2
 VANISH = [2, 4, 6, 8, 10, 12, 14, 16]      # noise variances 10^-e along which MMSE -> ZF is followed
 ALL = ["blast", "mrc", "mrt", "svd", "gmd", "alamouti"]
@@ -55,10 +59,10 @@ def build(schemes, shapes, klo, khi, seed, ndata, qs, decqs, alpha=ALPHA, pyth=P
     defs = {"Schemes": tlc.tla(set(schemes)),
             "Shapes": "{" + ", ".join(tlc.tla(list(s)) for s in shapes) + "}",
             "Alpha": tlc.tla(alpha), "Pyth": tlc.tla(pyth), "Syms": tlc.tla(SYMS),
-            "Qs": tlc.tla(qs), "DecQs": tlc.tla([sorted(d) for d in decqs]), "Vanish": tlc.tla(VANISH),
+            "Scales": tlc.tla(SCALES), "Qs": tlc.tla(qs), "DecQs": tlc.tla([sorted(d) for d in decqs]), "Vanish": tlc.tla(VANISH),
             "Dev": tlc.tla({d: (d in dev) for d in DEVS})}
     cfg = tlc.cfg_text(constants={"KLo": str(klo), "KHi": str(khi), "Seed": str(seed % 65536), "NData": str(ndata),
-                                  "HistEvery": str(hist_every), "HistDeep": str(hist_deep), "QueryQ": str(QUERY_Q)},
+                                  "HistEvery": str(hist_every), "HistDeep": str(hist_deep), "QueryQ": str(QUERY_Q), "IsoEvery": str(ISO_EVERY)},
                        defs=defs, invariants=INVARIANTS, properties=PROPERTIES, action_constraints=["Emit"] if emit else [])
     return cfg, defs
 
@@ -140,8 +144,12 @@ def classes():
             "alamouti": mimo.Alamouti}, mimo
 
 
+def gain(rec):
+    return 10.0 ** rec.get("sc", 0)
+
+
 def chan_arg(rec):
-    H = imat(rec["H"])
+    H = gain(rec) * imat(rec["H"])
     if rec["form"] == "1d":
         return (H[:, 0].copy() if rec["sch"] == "mrc" else H[0, :].copy()), H
     return H.copy(), H
@@ -169,13 +177,13 @@ class Bench:
             o.set_channel_matrix(arg)
         if sch in ("blast", "mrc"):
             if q and q > 0:
-                o.set_noise_var(1.0 / q)
+                o.set_noise_var(gain(rec) ** 2 / q)
             elif rec["k"] % 2 == 0:
                 o.set_noise_var(None)
             else:
                 o.set_noise_var(0.0)
         self.objs[sch] = o
-        self.prev[sch] = {"H": rec["H"], "form": rec["form"], "sch": sch, "k": rec["k"], "q": q or 0}
+        self.prev[sch] = {"H": rec["H"], "form": rec["form"], "sch": sch, "k": rec["k"], "q": q or 0, "sc": rec.get("sc", 0)}
         out["hist"] = hist
         return o, H
 
@@ -217,7 +225,7 @@ class Bench:
                 pass
             o.set_channel_matrix(arg)
             out["hist"] = prev
-        self.prev[sch] = {"H": rec["H"], "form": rec["form"], "sch": sch, "k": rec["k"], "q": 0}
+        self.prev[sch] = {"H": rec["H"], "form": rec["form"], "sch": sch, "k": rec["k"], "q": 0, "sc": rec.get("sc", 0)}
         return o, H
 
     def preload(self, hist):
@@ -330,7 +338,8 @@ def eval_link(rec, bench, res):
     """one channel, one data block, one history of calls on ONE object"""
     sch, nr, nt = rec["sch"], rec["nr"], rec["nt"]
     steps = rec["steps"]
-    tag = f"{sch} {nr}x{nt} k={rec['k']} history={[st['a'] for st in steps]}"
+    gn = gain(rec)           # noise variances are given as gn^2 / q: decoded blocks and SINRs do not depend on the gain
+    tag = f"{sch} {nr}x{nt} k={rec['k']} gain=1e{rec.get('sc', 0)}{' isometry' if rec.get('iso') else ''} history={[st['a'] for st in steps]}"
     g = Guard(res, tag, rec["k"] + len(steps))
     okc, r = call(res, "configure", bench.link_obj, rec, res.extra, g)
     if not okc:
@@ -363,7 +372,7 @@ def eval_link(rec, bench, res):
         if a == -3:          # queries: answers only (QueryIsPure is judged by the decodes that follow)
             res.check(o.getNumberOfLayers() == rec["layers"] and o.Nt == nt and o.Nr == nr, f"{tag}: step {i}: layers/Nt/Nr changed")
             for name in ("calc_linear_SINRs", "calc_SINRs"):
-                okc, e = g.call(name, getattr(o, name), 1.0 / rec["qq"])
+                okc, e = g.call(name, getattr(o, name), gn ** 2 / rec["qq"])
                 if not okc:
                     return res.bad(f"{tag}: step {i}: query {name}(1/{rec['qq']}) raised {res.extra['exception']}")
             continue
@@ -375,7 +384,7 @@ def eval_link(rec, bench, res):
                                    f"({'returned' if okc else res.extra['exception']})")
             continue
         if a != -2:          # set_noise_var(None | 0.0 | 1/a)
-            arg = None if a == -1 else (0.0 if a == 0 else 1.0 / a)
+            arg = None if a == -1 else (0.0 if a == 0 else gn ** 2 / a)
             okc, e = g.call("set_noise_var", o.set_noise_var, arg)
             if not okc:
                 return res.bad(f"{tag}: step {i}: set_noise_var({arg}) raised {res.extra['exception']}")
@@ -412,7 +421,7 @@ def eval_link(rec, bench, res):
             if not res.check(close(dec, w), f"{tag}: step {i}: decode(H encode(x)) differs from {what}"):
                 return
             if first:
-                okc, dec2 = g.call("decode", o.decode, g.variant(signal(rec["rx"])))
+                okc, dec2 = g.call("decode", o.decode, g.variant(gn * signal(rec["rx"])))
                 if not okc:
                     return res.bad(f"{tag}: decode of the exact received signal raised {res.extra['exception']}")
                 res.check(close(np.asarray(dec2), w), f"{tag}: decode(exact received signal) differs from {what}")
@@ -428,7 +437,8 @@ def eval_filters(rec, bench, res):
     sch, nr, nt = rec["sch"], rec["nr"], rec["nt"]
     flt = rec["flt"]
     cls, mimo = classes()
-    tag = f"{sch} {nr}x{nt} k={rec['k']}"
+    gn = gain(rec)           # observed filters are compared after multiplication with the gain (ZF(gH) = ZF(H)/g)
+    tag = f"{sch} {nr}x{nt} k={rec['k']} gain=1e{rec.get('sc', 0)}{' isometry' if rec.get('iso') else ''}"
     lin = getattr(mimo, "calc_post_processing_linear_SINRs", None)
     dbf = getattr(mimo, "calc_post_processing_SINRs", None)
     if flt["kind"] == "blast":
@@ -443,12 +453,12 @@ def eval_filters(rec, bench, res):
         okc, d = call(res, "decode", o.decode, np.eye(nr, dtype=complex))
         if not okc:
             return res.bad(f"{tag}: decode(I) raised {res.extra['exception']}")
-        g_zf = np.asarray(d).reshape((nt, nr), order="F")
+        g_zf = gn * np.asarray(d).reshape((nt, nr), order="F")
         res.check(close(g_zf, rt * zf), f"{tag}: zero-forcing receive filter differs from sqrt(Nt) (H^H H)^-1 H^H")
-        res.check(close(g_zf.dot(H) / rt, np.eye(nt)), f"{tag}: ZF H != I")
+        res.check(close(g_zf.dot(H) / (rt * gn), np.eye(nt)), f"{tag}: ZF H != I")
         f_zf = _mimo_static(mimo, "_calcZeroForceFilter")
         if f_zf is not None:
-            res.check(close(f_zf(H.copy()), zf), f"{tag}: _calcZeroForceFilter differs from (H^H H)^-1 H^H")
+            res.check(close(gn * f_zf(H.copy()), zf), f"{tag}: _calcZeroForceFilter differs from (H^H H)^-1 H^H")
         f_pre = getattr(cls[sch], "_calc_precoder", None)
         if f_pre is not None:
             res.check(close(f_pre(H.copy()), W), f"{tag}: precoder differs from I/sqrt(Nt)")
@@ -457,13 +467,13 @@ def eval_filters(rec, bench, res):
         prev_d = None
         for m in flt["mm"]:
             q = m["q"]
-            nv = 1.0 / q
+            nv = gn ** 2 / q
             mm = imat(m["num"]) / m["den"]
             o.set_noise_var(nv)
             okc, d = call(res, "decode", o.decode, np.eye(nr, dtype=complex))
             if not okc:
                 return res.bad(f"{tag}: decode(I) with noise variance 1/{q} raised {res.extra['exception']}")
-            g_mm = np.asarray(d).reshape((nt, nr), order="F")
+            g_mm = gn * np.asarray(d).reshape((nt, nr), order="F")
             res.check(close(g_mm, rt * mm), f"{tag}: MMSE receive filter (sigma^2=1/{q}) differs from sqrt(Nt) (H^H H + sigma^2 I)^-1 H^H")
             # the law: ||MMSE - ZF||^2 equals the exact distance and decreases strictly
             d_exp = float(Fraction(big(m["S"]), big(m["den2"]) * flt["zf"]["den"] ** 2))
@@ -473,20 +483,20 @@ def eval_filters(rec, bench, res):
                 res.check(d_got < prev_d, f"{tag}: ||MMSE - ZF|| does not decrease from sigma^2 > 1/{q} to 1/{q}")
             prev_d = d_got
             if f_mm is not None:
-                res.check(close(f_mm(H.copy(), nv), mm), f"{tag}: _calcMMSEFilter(H, 1/{q}) differs from (H^H H + sigma^2 I)^-1 H^H")
+                res.check(close(gn * f_mm(H.copy(), nv), mm), f"{tag}: _calcMMSEFilter(H, 1/{q}) differs from (H^H H + sigma^2 I)^-1 H^H")
             if f_rf is not None:
-                res.check(close(f_rf(H.copy(), nv), rt * mm), f"{tag}: _calc_receive_filter(H, 1/{q}) differs from sqrt(Nt) MMSE")
+                res.check(close(gn * f_rf(H.copy(), nv), rt * mm), f"{tag}: _calc_receive_filter(H, 1/{q}) differs from sqrt(Nt) MMSE")
             # post-processing SINRs (independent unit-energy streams)
             s_zf = np.array([ratio(s) for s in m["sinrZf"]])
             s_mm = np.array([ratio(s) for s in m["sinrMm"]])
             s_coh = np.array([ratio(s) for s in m["sinrCoh"]])
             if lin is not None:
-                got = np.asarray(lin(H.copy(), W, rt * zf, nv), dtype=float)
+                got = np.asarray(lin(H.copy(), W, rt * zf / gn, nv), dtype=float)
                 res.check(close(got, s_zf), f"{tag}: linear SINR of the ZF receiver (sigma^2=1/{q}) differs from q/(Nt [(H^H H)^-1]_kk)")
-                got = np.asarray(lin(H.copy(), W, rt * mm, nv), dtype=float)
+                got = np.asarray(lin(H.copy(), W, rt * mm / gn, nv), dtype=float)
                 sinr_verdict(res, got, s_mm, s_coh, f"{tag}: calc_post_processing_linear_SINRs with the MMSE filter (sigma^2=1/{q})")
                 if dbf is not None:
-                    got = np.asarray(dbf(H.copy(), W, rt * mm, nv), dtype=float)
+                    got = np.asarray(dbf(H.copy(), W, rt * mm / gn, nv), dtype=float)
                     sinr_verdict(res, got, 10 * np.log10(s_mm), 10 * np.log10(s_coh),
                                  f"{tag}: calc_post_processing_SINRs (dB) with the MMSE filter (sigma^2=1/{q})")
             okc, got = call(res, "calc_linear_SINRs", o.calc_linear_SINRs, nv)
@@ -503,25 +513,26 @@ def eval_filters(rec, bench, res):
         cbound = math.sqrt(ratio(flt["ginv2"]) * ratio(flt["zf2"]))
         floor = TOL * max(1.0, float(np.linalg.norm(zf)))
         for e in flt["vanish"]:
-            nv = 10.0 ** (-e)
+            s0 = 10.0 ** (-e)
+            nv = gn ** 2 * s0
             o.set_noise_var(nv)
             okc, d = call(res, "decode", o.decode, np.eye(nr, dtype=complex))
             if not okc:
                 res.bad(f"{tag}: decode(I) with noise variance 1e-{e} raised {res.extra['exception']}")
                 break
-            gap = float(np.linalg.norm(np.asarray(d).reshape((nt, nr), order="F") / rt - zf))
-            if not res.check(gap <= nv * cbound + floor,
+            gap = float(np.linalg.norm(gn * np.asarray(d).reshape((nt, nr), order="F") / rt - zf))
+            if not res.check(gap <= s0 * cbound + floor,
                              f"{tag}: MmseWithinBoundOfZf fails: ||MMSE(1e-{e}) - ZF||_F = {gap:.3e} exceeds "
-                             f"sigma^2 ||(H^H H)^-1|| ||ZF|| = {nv * cbound:.3e} (the MMSE filter does not tend to the ZF filter)"):
+                             f"sigma^2 ||(H^H H)^-1|| ||ZF|| = {s0 * cbound:.3e} (the MMSE filter does not tend to the ZF filter)"):
                 break
             if f_mm is not None:
-                gap = float(np.linalg.norm(np.asarray(f_mm(H.copy(), nv)) - zf))
-                if not res.check(gap <= nv * cbound + floor,
+                gap = float(np.linalg.norm(gn * np.asarray(f_mm(H.copy(), nv)) - zf))
+                if not res.check(gap <= s0 * cbound + floor,
                                  f"{tag}: MmseWithinBoundOfZf fails for _calcMMSEFilter(H, 1e-{e}): distance to ZF {gap:.3e}, "
-                                 f"bound {nv * cbound:.3e}"):
+                                 f"bound {s0 * cbound:.3e}"):
                     break
         if f_rf is not None:
-            res.check(close(f_rf(H.copy(), 0.0), rt * zf) and close(f_rf(H.copy(), None), rt * zf),
+            res.check(close(gn * f_rf(H.copy(), 0.0), rt * zf) and close(gn * f_rf(H.copy(), None), rt * zf),
                       f"{tag}: _calc_receive_filter(H, 0 / None) differs from sqrt(Nt) ZF")
         okc, e = call(res, "set_noise_var", o.set_noise_var, -1.0)
         res.check((not okc) and isinstance(e, ValueError), f"{tag}: set_noise_var(-1) did not raise ValueError")
@@ -536,12 +547,12 @@ def eval_filters(rec, bench, res):
         okc, w_pub = call(res, "encode", o.encode, np.array([1.0 + 0j]))
         res.check(okc and close(np.asarray(w_pub), W), f"{tag}: MRT precoder (encode(1)) differs from exp(-j arg h)/sqrt(Nt)")
         okc, g_pub = call(res, "decode", o.decode, np.array([[1.0 + 0j]]))
-        res.check(okc and close(np.asarray(g_pub).reshape(-1), np.array([g])), f"{tag}: MRT receive gain differs from sqrt(Nt)/sum|h|")
+        res.check(okc and close(gn * np.asarray(g_pub).reshape(-1), np.array([g])), f"{tag}: MRT receive gain differs from sqrt(Nt)/sum|h|")
         for s in flt["sinr"]:
-            nv = 1.0 / s["q"]
+            nv = gn ** 2 / s["q"]
             exp = s["v"][0] / s["v"][1]
             if lin is not None:
-                got = np.asarray(lin(H.copy(), W, g, nv), dtype=float).reshape(-1)
+                got = np.asarray(lin(H.copy(), W, g / gn, nv), dtype=float).reshape(-1)
                 res.check(close(got, np.array([exp])), f"{tag}: linear SINR (sigma^2=1/{s['q']}) differs from (sum|h|)^2/(Nt sigma^2)")
             okc, got = call(res, "calc_linear_SINRs", o.calc_linear_SINRs, nv)
             if okc:
@@ -558,7 +569,7 @@ def eval_filters(rec, bench, res):
             return res.bad(f"{tag}: configuring raised {res.extra['exception']}")
         o, H = r
         for s in flt["sinr"]:
-            nv = 1.0 / s["q"]
+            nv = gn ** 2 / s["q"]
             exp = s["v"][0] / s["v"][1]
             okc, got = call(res, "calc_linear_SINRs", o.calc_linear_SINRs, nv)
             if not okc:
@@ -667,9 +678,12 @@ def model_stage(ctx):
             "NvNoneKeepsFilter": (("RoundTrip", "FilterFresh"), ["blast", "mrc"], [(2, 1), (2, 2)]),
             # a query / a refused call inside a history must leave the later decodes alone
             "QuerySetsNoiseVar": (("QueryIsPure", "RoundTrip", "FilterFresh"), ["blast", "mrc"], [(2, 1), (2, 2)]),
-            "RejectedKeepsEffect": (("RejectedChangesNothing", "RoundTrip"), ["alamouti", "mrt"], [(1, 2), (2, 2)])}
+            "RejectedKeepsEffect": (("RejectedChangesNothing", "RoundTrip"), ["alamouti", "mrt"], [(1, 2), (2, 2)]),
+            # a well conditioned channel handed over with gain 1e-7; a scaled isometry (k = ISO_EVERY)
+            "GmdAbsoluteTol": (("RoundTrip",), ["gmd"], [(2, 2), (3, 2)]),
+            "GmdTieBreaks": (("RoundTrip",), ["gmd"], [(2, 2), (3, 2)])}
     for dev, (inv, schemes, shapes) in want.items():
-        cfg, defs = build(schemes, shapes, 1, 3, ctx.seed, 1, qs, [{4}] * 4, dev=[dev], emit=False, hist_every=1, hist_deep=4)
+        cfg, defs = build(schemes, shapes, 1, ISO_EVERY, ctx.seed, 1, qs, [{4}] * 4, dev=[dev], emit=False, hist_every=1, hist_deep=4)
         r = tlc_run(cfg, defs)
         if r.violated not in inv:
             raise tlc.TlcError(f"deviation {dev} is not refuted by {inv} of Mimo.tla (TLC reported {r.violated})")
